@@ -206,6 +206,18 @@ def main():
                 my_obs.append(o)
         for oid, msgs in att.failed.items():
             failed[oid] = (msgs, meta, res)
+        # taint: Verus assumes a failed assertion and goes on, so every other obligation of the same function was
+        # discharged UNDER the failed one. If this property has obligations in such a function but none of its own fails
+        # there, they are not proved: undecided (never "holds")
+        by_id = dict((o['id'], o) for o in att.all_obligations)
+        for oid in att.failed:
+            fo = by_id.get(oid)
+            if fo is None or a.pid in fo['tags'] or fo['scope'] == 'model':
+                continue
+            mine_here = [o for o in att.all_obligations if a.pid in o['tags'] and o['scope'] == fo['scope']]
+            if mine_here and not any(o['id'] in att.failed for o in mine_here):
+                ctx.undecided.append('%s: obligation %s (not an obligation of %s) fails; the obligations of %s in %s were '
+                                     'discharged assuming it - not proved' % (unit, oid, a.pid, a.pid, fo['scope']))
         # per-function rows for the evidence
         for f in meta['functions']:
             fr = None
